@@ -25,6 +25,14 @@ type arapCase struct {
 	Angle   float64 `json:"angle"`
 	MaxIt   int     `json:"maxit"` // 0: default
 	Seq     bool    `json:"seq"`   // use SeqDeformer
+	// Prev (Seq only): earlier calls on the SAME deformer closure before the call that is checked.  Each entry
+	// is a mode: 0 = the same handles with other targets, 1 = as many handles but other vertices (every
+	// selector shifted by Shift), 2 = every second handle only.  Their targets are the rigid motion at half
+	// its parameters.  With cold starts ("the previous result is not used") the checked call must still meet
+	// its constraints exactly and reproduce the rigid motion; with warm starts the constraints and the topology.
+	Prev  []int `json:"prev,omitempty"`
+	Shift int   `json:"shift,omitempty"`
+	Warm  bool  `json:"warm,omitempty"`
 }
 
 var arapKinds = []string{"icosphere", "icosphere", "subbox", "torus", "cylinder", "csg", "field", "polar", "icosahedron"}
@@ -45,7 +53,14 @@ func genARAP(t *rapid.T) arapCase {
 	c.Axis = gen.Dir3(t, "axis").Unit()
 	c.Angle = gen.F(t, -math.Pi/3, math.Pi/3, "angle")
 	c.MaxIt = pickOf(t, []int{0, 0, 2000}, "maxit")
-	c.Seq = gen.Int(t, 0, 3, "seq") == 0
+	c.Seq = gen.Int(t, 0, 2, "seq") == 0
+	if c.Seq {
+		for i, n := 0, gen.Int(t, 0, 2, "nprev"); i < n; i++ {
+			c.Prev = append(c.Prev, gen.Int(t, 0, 2, "prevmode"))
+		}
+		c.Shift = gen.Int(t, 1, 40, "shift")
+		c.Warm = gen.Int(t, 0, 2, "warm") == 0
+	}
 	return c
 }
 
@@ -155,7 +170,34 @@ func checkARAP(c arapCase, o *kit.Obs) error {
 	o.NonTrivial()
 	var res *model3d.Mesh
 	if c.Seq {
-		res = a.SeqDeformer(true)(cm)
+		// "coldStart" in the library's signature means: do NOT start from the previous result
+		def := a.SeqDeformer(!c.Warm)
+		half := func(v kit.V3) kit.V3 {
+			if c.Mode == "translate" {
+				return v.Add(c.T.Scale(0.5))
+			}
+			return rotate(c.Axis, c.Angle/2, v.Sub(ctr)).Add(ctr).Add(c.T.Scale(0.5))
+		}
+		for _, mode := range c.Prev {
+			pm := model3d.ARAPConstraints{}
+			for k, i := range cons {
+				switch mode {
+				case 1:
+					i = (i + c.Shift) % len(im.V)
+				case 2:
+					if k%2 == 1 && len(cons) > 8 {
+						continue
+					}
+				}
+				pm[m3.C3(im.V[i])] = m3.C3(half(im.V[i]))
+			}
+			if len(pm) < 4 {
+				continue
+			}
+			def(pm)
+			o.Labelf("arap:seq-prev-mode-%d", mode)
+		}
+		res = def(cm)
 	} else {
 		res = a.Deform(cm)
 	}
@@ -171,8 +213,8 @@ func checkARAP(c arapCase, o *kit.Obs) error {
 			return fmt.Errorf("%s: constrained vertex %v must land exactly on %v, which is not a vertex of the result", what, im.V[i], want[i])
 		}
 	}
-	if weights == 3 {
-		// different weights for the linear solve and for the rotation fit: the alternation does not descend on
+	if weights == 3 || (c.Seq && c.Warm && len(c.Prev) > 0) {
+		// different weights for the linear solve and for the rotation fit (or a warm start from another pose): the alternation does not descend on
 		// one energy and is not claimed to reach the rigid solution (it settles elsewhere on tori);
 		// constraints and connectivity only
 		if len(vo) < len(im.V) {
